@@ -688,7 +688,7 @@ theorem saveRejFiles_fileAt (rejs : List (Bytes × Bytes)) : ∀ (w w' : World),
   | cons x rest ih =>
     intro w w' h
     obtain ⟨name, content⟩ := x
-    unfold saveRejFiles at h
+    rw [saveRejFiles_cons] at h
     split at h
     · cases h
     · rename_i k hk
@@ -731,6 +731,14 @@ theorem saveRejFiles_fileAt (rejs : List (Bytes × Bytes)) : ∀ (w w' : World),
               createFile_fileAt_ne g1 hk', a0 key hk']
           · cases h
           · cases h
+      split at h
+      · -- the path leads through a regular file: nothing is touched
+        split at h
+        · cases h
+        · split at h
+          · cases h
+          · obtain ⟨r1, r2⟩ := ih _ w' h
+            exact ⟨r1, fun key hn => r2 key (hrest key hn)⟩
       split at h
       · cases h
       · rename_i w0 hop
